@@ -66,6 +66,8 @@ type BEMap {BE:Int}`
 // World is the set of shared objects of one execution.
 type World struct {
 	Basic     datamodel.Node
+	Link2     datamodel.Link // a second intact block in the memstore
+	LinkBad   datamodel.Link // a block whose stored bytes do not hash to it
 	Bind      schema.TypedNode
 	BindKMap  schema.TypedNode // map with stringjoin-struct keys
 	BindEMap  schema.TypedNode // map with enum keys
@@ -122,6 +124,15 @@ func NewWorld() *World {
 	if err != nil {
 		panic(err)
 	}
+	// a second intact block, and a block whose stored bytes do not hash to its link (a load of it is a
+	// hash-mismatch error, after which loads of the intact blocks must be what they were)
+	if w.Link2, err = ls.Store(linking.LinkContext{}, p.LP(), ref.Basic(ref.List(ref.Int(1), ref.Str("second block"), ref.Int(3)))); err != nil {
+		panic(err)
+	}
+	if w.LinkBad, err = ls.ComputeLink(p.LP(), ref.Basic(ref.Str("a block that was never stored intact"))); err != nil {
+		panic(err)
+	}
+	w.MemStore.Bag[w.LinkBad.Binary()] = []byte("these bytes do not hash to the link they are stored under")
 	ls.StorageWriteOpener = nil
 	w.LS = &ls
 	w.CidMem = &cidlink.Memory{}
@@ -275,6 +286,22 @@ func Ops() []Op {
 		{"loadraw-linksystem-cidmemory", func(w *World) string {
 			b, err := w.LSMem.LoadRaw(linking.LinkContext{}, w.LinkMem)
 			return fmt.Sprintf("%x %v", b, err)
+		}},
+		{"loadraw-linksystem-memstore-other-block", func(w *World) string {
+			b, err := w.LS.LoadRaw(linking.LinkContext{}, w.Link2)
+			return fmt.Sprintf("%x %v", b, err)
+		}},
+		{"loadraw-linksystem-memstore-after-a-hash-mismatch", func(w *World) string {
+			_, err0 := w.LS.LoadRaw(linking.LinkContext{}, w.LinkBad)
+			b, err := w.LS.LoadRaw(linking.LinkContext{}, w.Link)
+			return fmt.Sprintf("%v | %x %v", err0, b, err)
+		}},
+		{"loadplusraw-linksystem-memstore", func(w *World) string {
+			n, b, err := w.LS.LoadPlusRaw(linking.LinkContext{}, w.Link, basicnode.Prototype.Any)
+			if err != nil {
+				return err.Error()
+			}
+			return fmt.Sprintf("%s %x", obs(n), b)
 		}},
 		{"computelink", func(w *World) string {
 			l, err := w.LS.ComputeLink(w.Link.Prototype(), w.Basic)
